@@ -3,21 +3,23 @@
 (* 2 and 3.  The harness establishes the container on the root, registers the items expressions, applies *)
 (* the operation, probes, then clears the container and probes again (stale hooks surface there).        *)
 EXTENDS Observe
+CONSTANTS NegI, HiI       \* integer index range -NegI..HiI of the list operations
+LoI == -NegI
 VARIABLES kind, pre, m
 vars == <<kind, pre, m>>
 None == 1000
 Items == {2, 3}
 SeqsUpTo(S, n) == UNION {[1..k -> S] : k \in 0..n}
-Idx == (-2..3) \cup {None}
+Idx == (LoI..HiI) \cup {None}
 Mk(t, op, a, xs, ps) == [t |-> t, op |-> op, x |-> 1, a |-> a, xs |-> xs, ps |-> ps]
 ListOps ==
-       {Mk("kids", "setitem", <<i, 0, 0>>, <<y>>, <<>>) : i \in -2..3, y \in Items}
+       {Mk("kids", "setitem", <<i, 0, 0>>, <<y>>, <<>>) : i \in LoI..HiI, y \in Items}
   \cup {Mk("kids", "setslice", <<st, sp, stp>>, ys, <<>>) : st \in Idx, sp \in Idx, stp \in {None, 2, -1}, ys \in SeqsUpTo(Items, 2)}
-  \cup {Mk("kids", "delitem", <<i, 0, 0>>, <<>>, <<>>) : i \in -2..3}
+  \cup {Mk("kids", "delitem", <<i, 0, 0>>, <<>>, <<>>) : i \in LoI..HiI}
   \cup {Mk("kids", "delslice", <<st, sp, stp>>, <<>>, <<>>) : st \in Idx, sp \in Idx, stp \in {None, 2, -1}}
   \cup {Mk("kids", op, <<0, 0, 0>>, <<y>>, <<>>) : op \in {"append", "remove"}, y \in Items}
   \cup {Mk("kids", "extend", <<0, 0, 0>>, ys, <<>>) : ys \in SeqsUpTo(Items, 2)}
-  \cup {Mk("kids", "insert", <<i, 0, 0>>, <<y>>, <<>>) : i \in -2..3, y \in Items}
+  \cup {Mk("kids", "insert", <<i, 0, 0>>, <<y>>, <<>>) : i \in LoI..HiI, y \in Items}
   \cup {Mk("kids", "pop", <<i, 0, 0>>, <<>>, <<>>) : i \in Idx}
   \cup {Mk("kids", op, <<0, 0, 0>>, <<>>, <<>>) : op \in {"reverse", "clear"}}
   \cup {Mk("kids", "imul", <<k, 0, 0>>, <<>>, <<>>) : k \in 0..2}
